@@ -1,14 +1,15 @@
 // Simulated kernel for C13 (DESIGN E5): this translation unit DEFINES send, epoll_ctl and
 // epoll_wait, so the statically linked libnstd objects call these instead of libc's.
-//  * send on the client's descriptor is answered by the scripted outcome of the current
-//    operation (would-block, k bytes, all, 0, error).  Accepted bytes are recorded as "handed to
-//    the operating system" and really sent through the socket pair to the peer end, where
-//    they are read back eagerly (in order) into the peer's receive log.
-//  * epoll_ctl is forwarded and recorded (which native events the client's descriptor is
+//  * send on a client's descriptor is answered by the next scripted outcome (would-block, k bytes,
+//    all, 0, error).  Accepted bytes are recorded as "handed to the operating system" and really
+//    sent through the socket pair to the peer end, where they are read back eagerly (in order)
+//    into the peer's receive log.
+//  * epoll_ctl is forwarded and recorded (which native events each client descriptor is
 //    registered for, and the user data of the registration).
-//  * epoll_wait returns, per run() call, first the scripted (or the real, timeout 0) readiness
-//    of the client's descriptor filtered the way epoll filters it, then the interrupt event.
-// C interface only (no nstd headers here).
+//  * epoll_wait returns, per run() call, first ONE batch with the scripted readiness of the client
+//    descriptors (in the scripted order, filtered the way epoll filters: registered events plus
+//    EPOLLHUP/EPOLLERR) or the real readiness (timeout 0), then the interrupt event.
+// Up to two client descriptors (A = 0, B = 1).  C interface only (no nstd headers here).
 #include <stdio.h>
 #include <stdlib.h>
 #include <string.h>
@@ -48,16 +49,17 @@ static void b_add(Bytes& b, const void* d, size_t n)
   b.n += n;
 }
 
-static int client_fd = -1, peer_fd = -1;
-static int peer_open = 0;
-static int out_kind = SK_NONE; static long out_k = 0;
-static Bytes tx_log, peer_rx;
-static char sendlog[512]; static size_t sendlog_n = 0;
-static int registered = 0; static unsigned reg_mask = 0; static epoll_data_t reg_data;
-static int ev_mode = SK_EV_OFF; static unsigned ev_native = 0; static int phase = 2;
-static unsigned last_real = 0; static int last_real_valid = 0;
-static long ctl_calls = 0;
-// every registration seen (the client is registered by Server::pair before the harness knows its descriptor)
+#define NC 2
+static int client_fd[NC] = {-1, -1}, peer_fd[NC] = {-1, -1};
+static int peer_open[NC];
+static sk_outcomes outq;
+static Bytes tx_log[NC], peer_rx[NC];
+static char sendlog[1024]; static size_t sendlog_n = 0;
+static int tag_sends = 0;
+static int registered[NC]; static unsigned reg_mask[NC]; static epoll_data_t reg_data[NC];
+static int ev_mode = SK_EV_OFF; static int phase = 2;
+static int ev_n = 0; static int ev_idx[8]; static unsigned ev_native[8];
+// every registration seen (a client is registered by Server::pair before the harness knows its descriptor)
 struct Reg { int fd; int on; unsigned mask; epoll_data_t data; };
 static Reg regs[64]; static int nregs = 0;
 static Reg* reg_of(int fd, int create)
@@ -67,88 +69,107 @@ static Reg* reg_of(int fd, int create)
   regs[nregs].fd = fd; regs[nregs].on = 0; regs[nregs].mask = 0;
   return &regs[nregs++];
 }
+static int idx_of(int fd)
+{
+  if(fd < 0) return -1;
+  for(int i = 0; i < NC; ++i) if(client_fd[i] == fd) return i;
+  return -1;
+}
 
 extern "C" void sk_reset()
 {
   resolve();
-  client_fd = peer_fd = -1; peer_open = 0;
-  out_kind = SK_NONE; out_k = 0;
-  tx_log.n = 0; peer_rx.n = 0; sendlog_n = 0; sendlog[0] = 0;
-  registered = 0; reg_mask = 0; ev_mode = SK_EV_OFF; ev_native = 0; phase = 2; last_real_valid = 0; ctl_calls = 0;
+  for(int i = 0; i < NC; ++i) {
+    client_fd[i] = peer_fd[i] = -1; peer_open[i] = 0; tx_log[i].n = 0; peer_rx[i].n = 0;
+    registered[i] = 0; reg_mask[i] = 0;
+  }
+  outq.n = 0;
+  sendlog_n = 0; sendlog[0] = 0; tag_sends = 0;
+  ev_mode = SK_EV_OFF; ev_n = 0; phase = 2;
   nregs = 0;
 }
 
-extern "C" void sk_attach(int cfd, int pfd)
+extern "C" void sk_attach(int idx, int cfd, int pfd)
 {
-  client_fd = cfd; peer_fd = pfd; peer_open = 1;
+  client_fd[idx] = cfd; peer_fd[idx] = pfd; peer_open[idx] = 1;
   Reg* r = reg_of(cfd, 0);
-  if(r && r->on) { registered = 1; reg_mask = r->mask; reg_data = r->data; }
+  if(r && r->on) { registered[idx] = 1; reg_mask[idx] = r->mask; reg_data[idx] = r->data; }
 }
-extern "C" void sk_detach_client() { client_fd = -1; registered = 0; }
-extern "C" void sk_set_outcome(int kind, long k) { out_kind = kind; out_k = k; }
-extern "C" void sk_get_outcome(int* kind, long* k) { *kind = out_kind; *k = out_k; }
-extern "C" void sk_arm_event(int mode, unsigned native) { ev_mode = mode; ev_native = native; phase = 0; last_real_valid = 0; }
+extern "C" void sk_tag_sends(int on) { tag_sends = on; }
+extern "C" void sk_detach_client(int idx) { client_fd[idx] = -1; registered[idx] = 0; }
+extern "C" void sk_set_outcome(int kind, long k) { outq.n = 0; if(kind != SK_NONE) { outq.kind[0] = kind; outq.k[0] = k; outq.n = 1; } }
+extern "C" void sk_push_outcome(int kind, long k) { if(outq.n < SK_MAXQ) { outq.kind[outq.n] = kind; outq.k[outq.n] = k; ++outq.n; } }
+extern "C" void sk_get_outcomes(sk_outcomes* o) { *o = outq; }
+extern "C" void sk_put_outcomes(const sk_outcomes* o) { outq = *o; }
+extern "C" void sk_arm_event(int mode) { ev_mode = mode; ev_n = 0; phase = 0; }
+extern "C" void sk_add_event(int idx, unsigned native) { if(ev_n < 8) { ev_idx[ev_n] = idx; ev_native[ev_n] = native; ++ev_n; } }
 extern "C" void sk_disarm_event() { ev_mode = SK_EV_OFF; phase = 2; }
 
-static void drain_peer()
+static void drain_peer(int idx)
 {
-  if(!peer_open) return;
+  if(!peer_open[idx]) return;
   unsigned char buf[65536];
   for(;;) {
-    ssize_t r = real_recv(peer_fd, buf, sizeof(buf), MSG_DONTWAIT);
+    ssize_t r = real_recv(peer_fd[idx], buf, sizeof(buf), MSG_DONTWAIT);
     if(r <= 0) break;
-    b_add(peer_rx, buf, (size_t)r);
+    b_add(peer_rx[idx], buf, (size_t)r);
   }
 }
 
-extern "C" void sk_peer_drain() { drain_peer(); }
-extern "C" void sk_peer_close() { drain_peer(); peer_open = 0; }
+extern "C" void sk_peer_drain(int idx) { drain_peer(idx); }
+extern "C" void sk_peer_close(int idx) { drain_peer(idx); peer_open[idx] = 0; }
 
-extern "C" size_t sk_take_tx(unsigned char** p) { *p = tx_log.p; size_t n = tx_log.n; tx_log.n = 0; return n; }
-extern "C" size_t sk_take_peer(unsigned char** p) { *p = peer_rx.p; size_t n = peer_rx.n; peer_rx.n = 0; return n; }
-extern "C" const char* sk_take_sendlog() { static char copy[512]; memcpy(copy, sendlog, sizeof(copy)); sendlog_n = 0; sendlog[0] = 0; return copy; }
-extern "C" int sk_registered() { return registered; }
-extern "C" unsigned sk_reg_mask() { return reg_mask; }
-extern "C" int sk_last_real(unsigned* m) { *m = last_real; return last_real_valid; }
+extern "C" size_t sk_take_tx(int idx, unsigned char** p) { *p = tx_log[idx].p; size_t n = tx_log[idx].n; tx_log[idx].n = 0; return n; }
+extern "C" size_t sk_take_peer(int idx, unsigned char** p) { *p = peer_rx[idx].p; size_t n = peer_rx[idx].n; peer_rx[idx].n = 0; return n; }
+extern "C" const char* sk_take_sendlog() { static char copy[1024]; memcpy(copy, sendlog, sizeof(copy)); sendlog_n = 0; sendlog[0] = 0; return copy; }
+extern "C" int sk_registered(int idx) { return registered[idx]; }
+extern "C" unsigned sk_reg_mask(int idx) { return reg_mask[idx]; }
 
-static void log_send(size_t n, long r, const char* note)
+static void log_send(int idx, size_t n, long r, const char* note)
 {
-  int w = snprintf(sendlog + sendlog_n, sizeof(sendlog) - sendlog_n, "%s%zu>%ld%s", sendlog_n ? "," : "", n, r, note);
+  char tag[4] = {0, 0, 0, 0};
+  if(tag_sends) { tag[0] = (char)('A' + idx); tag[1] = ':'; }
+  int w = snprintf(sendlog + sendlog_n, sizeof(sendlog) - sendlog_n, "%s%s%zu>%ld%s", sendlog_n ? "," : "", tag, n, r, note);
   if(w > 0 && sendlog_n + (size_t)w < sizeof(sendlog)) sendlog_n += (size_t)w;
 }
 
 extern "C" ssize_t send(int fd, const void* data, size_t n, int flags)
 {
   resolve();
-  if(fd != client_fd || client_fd < 0)
+  int idx = idx_of(fd);
+  if(idx < 0)
     return real_send(fd, data, n, flags);
-  int kind = out_kind; long k = out_k;
-  out_kind = SK_NONE;                         // one scripted answer per operation
+  int kind = SK_NONE; long k = 0;
+  if(outq.n > 0) {                            // one scripted answer per send call
+    kind = outq.kind[0]; k = outq.k[0];
+    for(int i = 1; i < outq.n; ++i) { outq.kind[i - 1] = outq.kind[i]; outq.k[i - 1] = outq.k[i]; }
+    --outq.n;
+  }
   const char* note = "";
   if(kind == SK_NONE) { kind = SK_FULL; note = "!unscripted"; }
   if((flags & MSG_NOSIGNAL) == 0) note = "!nosignal-missing";
   long r;
   switch(kind) {
-  case SK_WOULDBLOCK: log_send(n, -1, note); errno = EAGAIN; return -1;
-  case SK_ERROR: log_send(n, -1, note); errno = ECONNRESET; return -1;
-  case SK_ZERO: log_send(n, 0, note); return 0;
+  case SK_WOULDBLOCK: log_send(idx, n, -1, note); errno = EAGAIN; return -1;
+  case SK_ERROR: log_send(idx, n, -1, note); errno = ECONNRESET; return -1;
+  case SK_ZERO: log_send(idx, n, 0, note); return 0;
   case SK_FULL: r = (long)n; break;
   default: r = k < 1 ? 1 : k; if((size_t)r > n) r = (long)n; break;
   }
   // the kernel takes r bytes: they are now the operating system's, in this order
-  b_add(tx_log, data, (size_t)r);
-  if(peer_open) {
+  b_add(tx_log[idx], data, (size_t)r);
+  if(peer_open[idx]) {
     const unsigned char* p = (const unsigned char*)data; size_t left = (size_t)r;
     int spins = 0;
     while(left) {
       ssize_t w = real_send(fd, p, left, MSG_NOSIGNAL | MSG_DONTWAIT);
       if(w > 0) { p += w; left -= (size_t)w; continue; }
-      if(w < 0 && (errno == EAGAIN || errno == EWOULDBLOCK) && ++spins < 100000) { drain_peer(); continue; }
+      if(w < 0 && (errno == EAGAIN || errno == EWOULDBLOCK) && ++spins < 100000) { drain_peer(idx); continue; }
       fprintf(stderr, "simulated kernel: real send failed: %s\n", strerror(errno)); abort();
     }
-    drain_peer();
+    drain_peer(idx);
   }
-  log_send(n, r, note);
+  log_send(idx, n, r, note);
   return r;
 }
 
@@ -159,10 +180,10 @@ extern "C" int epoll_ctl(int epfd, int op, int fd, struct epoll_event* ev)
     if(op == EPOLL_CTL_DEL) { r->on = 0; r->mask = 0; }
     else { r->on = 1; r->mask = ev->events; r->data = ev->data; }
   }
-  if(fd == client_fd && client_fd >= 0) {
-    ++ctl_calls;
-    if(op == EPOLL_CTL_DEL) { registered = 0; reg_mask = 0; }
-    else { registered = 1; reg_mask = ev->events; reg_data = ev->data; }
+  int idx = idx_of(fd);
+  if(idx >= 0) {
+    if(op == EPOLL_CTL_DEL) { registered[idx] = 0; reg_mask[idx] = 0; }
+    else { registered[idx] = 1; reg_mask[idx] = ev->events; reg_data[idx] = ev->data; }
   }
   return real_epoll_ctl(epfd, op, fd, ev);
 }
@@ -175,17 +196,20 @@ extern "C" int epoll_wait(int epfd, struct epoll_event* events, int maxevents, i
   if(phase == 0) {
     phase = 1;
     if(ev_mode == SK_EV_SCRIPT) {
-      if(registered) {
-        unsigned d = (ev_native & reg_mask) | (ev_native & (EPOLLHUP | EPOLLERR));
-        if(d) { events[0].events = d; events[0].data = reg_data; return 1; }
+      int m = 0;
+      for(int i = 0; i < ev_n && m < maxevents; ++i) {
+        int idx = ev_idx[i];
+        if(!registered[idx]) continue;
+        unsigned d = (ev_native[i] & reg_mask[idx]) | (ev_native[i] & (EPOLLHUP | EPOLLERR));
+        if(d) { events[m].events = d; events[m].data = reg_data[idx]; ++m; }
       }
+      if(m) return m;
     } else if(ev_mode == SK_EV_REAL) {
       struct epoll_event tmp[64];
       int c = real_epoll_wait(epfd, tmp, 64, 0);
       int m = 0;
-      last_real = 0; last_real_valid = 1;
       for(int i = 0; i < c && m < maxevents; ++i)
-        if(tmp[i].data.ptr) { events[m++] = tmp[i]; last_real |= tmp[i].events; }   // drop the interrupt eventfd here
+        if(tmp[i].data.ptr) events[m++] = tmp[i];   // drop the interrupt eventfd here
       if(m) return m;
     }
   }
